@@ -113,6 +113,10 @@ def run_property(prop, tier='quick', fresh=None):
 
     if tier == 'thorough' and getattr(mod, 'WITNESSES', None):
         run_witnesses(ctx, mod)
+    if tier == 'thorough' and getattr(mod, 'CONTROLS', None):
+        rc = positive_controls(ctx, mod)
+        if rc:
+            return rc
 
     floors = getattr(mod, 'FLOORS', {})
     counts = {}
@@ -162,6 +166,44 @@ def run_property(prop, tier='quick', fresh=None):
         prop, total, len(facts.bodies), good, len(known_hits), len(violations), tier, wall,
         'cached' if info.get('cached') else 'extracted'))
     return 1 if violations else 0
+
+
+def positive_controls(ctx, mod):
+    """Thorough tier: the rules of this property are re-run on the pinned original tree (commit CONTROL_REV of /repo, in a scratch
+    worktree that is removed again) and must report every defect that was found and fixed there.  A rule that has gone blind makes
+    the check exit 2 (CHECKER-BROKEN) instead of passing vacuously.  Nothing is executed."""
+    import shutil
+    import subprocess
+    import tempfile
+    rev = getattr(mod, 'CONTROL_REV', '078b142')
+    if subprocess.run(['git', '-C', '/repo', 'cat-file', '-e', rev + '^{commit}'], stdout=subprocess.DEVNULL, stderr=subprocess.DEVNULL).returncode != 0:
+        ctx.notes.append('positive controls skipped: commit %s is not available in /repo' % rev)
+        return 0
+    d = tempfile.mkdtemp(prefix='affctl-')
+    os.rmdir(d)
+    try:
+        r = subprocess.run(['git', '-C', '/repo', 'worktree', 'add', '-q', '--detach', d, rev], stdout=subprocess.PIPE, stderr=subprocess.STDOUT, text=True)
+        if r.returncode != 0:
+            ctx.notes.append('positive controls skipped: cannot create a scratch worktree (%s)' % r.stdout.strip()[:200])
+            return 0
+        if os.path.exists('/repo/Cargo.lock'):
+            shutil.copy('/repo/Cargo.lock', os.path.join(d, 'Cargo.lock'))
+        facts_path, h, info = engine.ensure_facts(fresh=False, repo=d)
+        sub = Ctx(Facts.load(facts_path), 'quick', ctx.prop)
+        mod.run(sub)
+        fired = {(i.rule, i.site) for i in sub.insts if i.ok is not True}
+    except engine.BuildFailed as e:
+        ctx.notes.append('positive controls skipped: the original tree does not build here')
+        return 0
+    finally:
+        subprocess.run(['git', '-C', '/repo', 'worktree', 'remove', '--force', d], stdout=subprocess.DEVNULL, stderr=subprocess.DEVNULL)
+        shutil.rmtree(d, ignore_errors=True)
+    missing = [c for c in mod.CONTROLS if tuple(c) not in fired]
+    ctx.notes.append('positive controls on %s: %d/%d historical defects re-detected' % (rev, len(mod.CONTROLS) - len(missing), len(mod.CONTROLS)))
+    if missing:
+        print('CHECKER-BROKEN: rules no longer report defects they found on the original tree: %s' % missing)
+        return 2
+    return 0
 
 
 def run_witnesses(ctx, mod):
